@@ -576,6 +576,9 @@ func runLongLived(op string, rep *hx.Report, rig *snix.Rig, ep *sniproxy.Endpoin
 			return "failed"
 		}
 	}
+	// an application may write nothing at all: that is not the end of its stream
+	appA.Write([]byte{})
+	appB.Write(nil)
 	if age > 0 {
 		time.Sleep(time.Duration(age) * time.Second)
 	}
